@@ -29,8 +29,9 @@ def plan_st(draw, tier):
     kind, arms = draw(gen.arms_st(("int", "str"), 1, 4))
     if draw(st.integers(0, 2)):
         lp = draw(gen.lp_st(["EpsilonGreedy", "UCB1", "LinUCB"], arms, deterministic=True))
-    else:   # randomised policies, reproduced through the per-row seed (LinTS excluded: finding D8 of C05)
-        lp = draw(gen.lp_st(["EpsilonGreedy", "Softmax", "Popularity", "ThompsonSampling", "Random", "LinGreedy"], arms))
+    else:   # randomised policies, reproduced through the per-row seed
+        lp = draw(gen.lp_st(["EpsilonGreedy", "Softmax", "Popularity", "ThompsonSampling", "Random", "LinGreedy",
+                             "LinTS"], arms))
     nj = draw(st.sampled_from([1, 1, 1, 2, 3]))
     cfg = {"arms": arms, "lp": lp,
            "np": ["LSHNearest", {"n_dimensions": draw(st.integers(1, 6)), "n_tables": draw(st.integers(1, 4))}],
